@@ -173,7 +173,8 @@ func (self *MapIterator) appendConcrete(p *_MapPair, t *rt.GoType, k unsafe.Poin
 	if err != nil {
 		return err
 	}
-	p.k = rt.Mem2Str(out)
+	/* the key is kept until all pairs are sorted and written, the marshaler may reuse its buffer */
+	p.k = string(out)
 	return nil
 }
 
@@ -255,7 +256,8 @@ func IteratorStart(t *rt.GoMapType, m unsafe.Pointer, fv uint64) (*MapIterator, 
 func asText(v unsafe.Pointer) (string, error) {
 	text := rt.AssertI2I(rt.UnpackType(vars.EncodingTextMarshalerType), *(*rt.GoIface)(v))
 	r, e := (*(*encoding.TextMarshaler)(unsafe.Pointer(&text))).MarshalText()
-	return rt.Mem2Str(r), e
+	/* the key is kept until all pairs are sorted and written, the marshaler may reuse its buffer */
+	return string(r), e
 }
 
 func IsValidNumber(s string) bool {
